@@ -4,6 +4,7 @@ import re
 from .facts import Broken, strip, const, walk, show
 from .interp import path
 from .sqlmodel import literal_text
+from . import cfgq
 
 
 def _defs_of(fn, name, with_conditions=False):
@@ -139,3 +140,103 @@ def fold_accounts_for_prefix(prog, rule):
                        "PREFIX_LENGTH characters can be requested in the same call: an unfolded, prefixed text field whose longest "
                        "line has LINE_LENGTH-1 or LINE_LENGTH characters is written with lines longer than the limit" % call.get("l"))
     return 1
+
+
+def column_advance(prog, rule, unit="ciffile.c"):
+    """Where a function stores `last_column = base + X` after one u_fprintf whose result it keeps in a local N: X is N itself,
+    or X accounts for every character of the format - the number of literal characters and %c conversions plus the
+    precision of each string conversion.  A store that leaves out the delimiters lets the tracked column fall behind the
+    real one, and lines are wrapped too late.  Formats with a string conversion of unknown length (no precision) are not
+    judged unless the store uses N."""
+    from .memrules import _linear
+    n = 0
+    for fn in prog.all_functions():
+        if fn.unit != unit:
+            continue
+        emits = []
+        for (b, i, r, x) in fn.eval_sites("asg"):
+            rhs = strip(x.get("rhs"))
+            if isinstance(rhs, dict) and rhs.get("k") == "call" and rhs.get("callee") == "u_fprintf" and x.get("op") == "=":
+                lp = path(strip(x.get("lhs")))
+                if lp and re.match(r"^\w+$", lp):
+                    emits.append((b, i, lp, rhs))
+        if len(emits) != 1:
+            continue
+        (eb, ei, nvar, call) = emits[0]
+        fmt = literal_text(call["args"][1]) if len(call.get("args", [])) > 1 else None
+        if fmt is None:
+            continue
+        # expected advance from the format
+        expected = {"": 0}
+        known = True
+        pos = 2
+        args = call["args"]
+        for m in re.finditer(r"%([-+ #0]*)(\*|\d+)?(?:\.(\*|\d+))?(l|h)?([a-zA-Z%])|([^%])", fmt):
+            if m.group(6) is not None:
+                expected[""] += 1
+                continue
+            width, prec, conv = m.group(2), m.group(3), m.group(5)
+            if conv == "%":
+                expected[""] += 1
+                continue
+            w_at = p_at = None
+            if width == "*":
+                w_at = pos
+                pos += 1
+            if prec == "*":
+                p_at = pos
+                pos += 1
+            pos += 1
+            if conv == "c":
+                expected[""] += 1
+            elif conv in ("S", "s") and p_at is not None and p_at < len(args):
+                lf = _linear(args[p_at])
+                if lf is None:
+                    known = False
+                else:
+                    for k2, v in lf.items():
+                        expected[k2] = expected.get(k2, 0) + v
+            else:
+                known = False
+        if "\n" in fmt:
+            known = False           # the column restarts inside the output
+        for (b, i, r, x) in fn.eval_sites("asg"):
+            lp = path(strip(x.get("lhs"))) or ""
+            if not (lp.endswith("->last_column") or lp.endswith(".last_column")) or x.get("op") != "=":
+                continue
+            if not (b.id in cfgq.reach(fn, [eb.id]) or (b.id == eb.id and i > ei)):
+                continue
+            lf = _linear(x.get("rhs"))
+            if lf is None or const(x.get("rhs")) is not None:
+                continue
+            n += 1
+            key = "%s:L%s" % (fn.name, x.get("l"))
+            if lf.get(nvar) == 1:
+                rule.ok(key, "advances by the count u_fprintf returned (`%s`)" % nvar)
+                continue
+            if not known:
+                rule.ok(key, "format `%s` has a string conversion of unknown length: not judged" % fmt.replace("\n", "\\n"))
+                continue
+            # the base: one variable with coefficient 1 that is not part of the expected advance
+            adv = {k2: v for k2, v in lf.items()}
+            bases = [k2 for k2, v in adv.items() if k2 and v == 1 and k2 not in expected and ("column" in k2)]
+            if len(bases) != 1:
+                rule.unproved(key, "base column of `%s` not identified" % show(x.get("rhs"))[:50])
+                continue
+            adv.pop(bases[0])
+            adv = {k2: v for k2, v in adv.items() if v != 0 or k2 == ""}
+            exp = {k2: v for k2, v in expected.items() if v != 0 or k2 == ""}
+            adv.setdefault("", 0)
+            exp.setdefault("", 0)
+            if adv == exp:
+                rule.ok(key, "advances by the %d fixed characters of `%s` plus its string precision" % (exp[""], fmt))
+            else:
+                rule.violation(fn.file, fn.name, x.get("l"), "column-advance:%s" % fn.name,
+                               "after u_fprintf(\"%s\") at L%s the tracked column is advanced by `%s`, but the format emits %s: the "
+                               "column falls behind by the difference for every such value on a line, and the line-length test "
+                               "wraps too late" % (fmt, call.get("l"), " + ".join(("%s" % k2 if v == 1 else "%d*%s" % (v, k2)) if k2 else str(v)
+                                                                                    for k2, v in sorted(adv.items()) if v or not k2),
+                                                  " + ".join(("%s" % k2 if v == 1 else "%d*%s" % (v, k2)) if k2 else "%d fixed" % v
+                                                             for k2, v in sorted(exp.items()) if v or not k2)))
+    return n
+
